@@ -637,3 +637,18 @@ Proof.
   - apply H. lia.
   - specialize (H (c / p_epp p) ltac:(lia)). lia.
 Qed.
+
+(* ---------------------------------------------------------------- deciding positivity of a concrete polynomial *)
+
+Definition poly_unitb (p : params) : bool :=
+  forallb (fun i => PREC <=? poly_provision p (Z.of_nat i)) (seq 0 (Z.to_nat (p_max p))).
+
+Lemma poly_unitb_sound p : poly_unitb p = true -> poly_unit p.
+Proof.
+  unfold poly_unitb, poly_unit. intros H per Hper. rewrite forallb_forall in H.
+  specialize (H (Z.to_nat per)). rewrite Z2Nat.id in H by lia. apply Z.leb_le. apply H.
+  apply in_seq. lia.
+Qed.
+
+Lemma poly_unit_pos p : poly_unit p -> poly_pos p.
+Proof. intros H per Hper. specialize (H per Hper). pose proof PREC_pos. lia. Qed.
